@@ -1202,3 +1202,47 @@ def open_tag_dispatches(fn, tys=INT_TYS):
                 res.append((l, sorted(r["n"]), [bb] + w))
                 break
     return res
+
+
+# ------------------------------------------------------------------ loops
+
+def iterator_loops(fn, region=None):
+    """`for x in it` loops: [(head_bb (the Iterator::next call), body blocks, none_edge, [early exit edges])].
+    body = blocks reachable from the Some edge that can reach the head again; an early exit is an edge from a body block
+    to a non-body block other than the head's own None edge (a `break`, `return`, `?`)."""
+    out = []
+    preds = fn.preds()
+    for h in fn.call_sites(r"Iterator.*::next$|::next$"):
+        if region is not None and h not in region:
+            continue
+        t = fn.blocks[h]["t"]
+        if t.get("tgt") is None:
+            continue
+        re_ = result_edges(fn, h)
+        if not re_["some"] or not re_["none"]:
+            continue
+        some_t = [tgt for (sw, tgt) in re_["some"]]
+        none_e = set(re_["none"])
+        fwd = fn.reachable(some_t, avoid_blocks=[h])
+        # blocks that can reach h
+        back = set()
+        stack = [h]
+        while stack:
+            b = stack.pop()
+            for p in preds[b]:
+                if p not in back and p != h:
+                    back.add(p)
+                    stack.append(p)
+        body = (fwd & back) | {h} | {sw for (sw, tgt) in re_["some"]} | set(fn.reachable([t["tgt"]], avoid_blocks=[sw for (sw, tgt) in re_["some"]]) & back)
+        exits = []
+        for b in body:
+            if fn.blocks[b]["cl"]:
+                continue
+            for s_ in fn.succ(b):
+                if s_ not in body and (b, s_) not in none_e:
+                    # falling into a block that cannot continue (panic / unreachable) is not an exit of the fold
+                    if fn.blocks[s_]["t"]["t"] == "unreachable" and not fn.blocks[s_]["st"]:
+                        continue
+                    exits.append((b, s_))
+        out.append((h, body, none_e, exits))
+    return out
